@@ -96,6 +96,20 @@ func copyNoOpt(m *dns.Msg) *dns.Msg {
 		copy(m2.Question, m.Question)
 	}
 
+	// OPT is a hop-by-hop pseudo record. It is never cached, whatever section
+	// it is in. (Also, dns.Copy does not deep copy all of its options.)
+	lenAnswer := len(m.Answer)
+	for _, r := range m.Answer {
+		if r.Header().Rrtype == dns.TypeOPT {
+			lenAnswer--
+		}
+	}
+	lenNs := len(m.Ns)
+	for _, r := range m.Ns {
+		if r.Header().Rrtype == dns.TypeOPT {
+			lenNs--
+		}
+	}
 	lenExtra := len(m.Extra)
 	for _, r := range m.Extra {
 		if r.Header().Rrtype == dns.TypeOPT {
@@ -103,15 +117,21 @@ func copyNoOpt(m *dns.Msg) *dns.Msg {
 		}
 	}
 
-	s := make([]dns.RR, len(m.Answer)+len(m.Ns)+lenExtra)
-	m2.Answer, s = s[:0:len(m.Answer)], s[len(m.Answer):]
-	m2.Ns, s = s[:0:len(m.Ns)], s[len(m.Ns):]
+	s := make([]dns.RR, lenAnswer+lenNs+lenExtra)
+	m2.Answer, s = s[:0:lenAnswer], s[lenAnswer:]
+	m2.Ns, s = s[:0:lenNs], s[lenNs:]
 	m2.Extra = s[:0:lenExtra]
 
 	for _, r := range m.Answer {
+		if r.Header().Rrtype == dns.TypeOPT {
+			continue
+		}
 		m2.Answer = append(m2.Answer, dns.Copy(r))
 	}
 	for _, r := range m.Ns {
+		if r.Header().Rrtype == dns.TypeOPT {
+			continue
+		}
 		m2.Ns = append(m2.Ns, dns.Copy(r))
 	}
 
